@@ -127,16 +127,27 @@ impl MarkdownWriter {
                 )));
                 events.push(Event::Start(Tag::TableHead));
                 for cell in header_row {
+                    let ends_in_backslash =
+                        inlines_to_markdown(&cell, &self.options).ends_with('\\');
                     events.push(Event::Start(Tag::TableCell));
                     events.append(&mut self.inlines_to_events(cell));
+                    if ends_in_backslash {
+                        events.push(Event::Text(" ".into()));
+                    }
                     events.push(Event::End(TagEnd::TableCell));
                 }
                 events.push(Event::End(TagEnd::TableHead));
                 for row in rows {
                     events.push(Event::Start(Tag::TableRow));
                     for cell in row {
+                        // a backslash at the end of a cell would escape the pipe that closes it
+                        let ends_in_backslash =
+                            inlines_to_markdown(&cell, &self.options).ends_with('\\');
                         events.push(Event::Start(Tag::TableCell));
                         events.append(&mut self.inlines_to_events(cell));
+                        if ends_in_backslash {
+                            events.push(Event::Text(" ".into()));
+                        }
                         events.push(Event::End(TagEnd::TableCell));
                     }
                     events.push(Event::End(TagEnd::TableRow));
@@ -216,7 +227,12 @@ impl MarkdownWriter {
                     events.push(Event::Text(" ".into()));
                 }
                 GraphInline::Str(text) => {
-                    events.push(Event::Text(text.into()));
+                    if text.starts_with('<') && text.ends_with('>') {
+                        // an inline tag ("<br>" breaks a line inside a cell) is written as it is
+                        events.push(Event::InlineHtml(text.into()));
+                    } else {
+                        events.push(Event::Text(text.into()));
+                    }
                 }
                 GraphInline::Strikeout(vec) => {
                     events.push(Event::Start(Tag::Strikethrough));
